@@ -9,3 +9,5 @@ import RexModel.Props.C13
 #print axioms Rex.C13.max_records_keeps_first
 #print axioms Rex.C13.C13_recorded_steps_are_faithful
 #print axioms Rex.C13.C13_recorded_states_chain
+#print axioms Rex.C13.run_of_guardsOk
+#print axioms Rex.C13.C13_reachable_state_with_a_record
